@@ -456,6 +456,7 @@ class Blockwise(Expr):
     operation = None
     _keyword_only = []
     _projection_passthrough = False
+    _fusable = True
 
     @functools.cached_property
     def _meta(self):
@@ -2991,7 +2992,12 @@ def are_co_aligned(*exprs):
 
 
 def is_valid_blockwise_op(expr):
-    return isinstance(expr, Blockwise) and not isinstance(expr, (FromPandas, FromArray))
+    return (
+        isinstance(expr, Blockwise)
+        and not isinstance(expr, (FromPandas, FromArray))
+        # output partition i must be computed from input partition i
+        and expr._fusable
+    )
 
 
 def optimize_blockwise_fusion(expr):
